@@ -89,8 +89,11 @@ class C08(Check):
             ("mixed", bpt, tier) for bpt in (BPTS if tier == "quick" else BPTS_THOROUGH)
         ]
 
-    def run_case(self, inp, bpt, counts, order, painted, ctx):
+    def run_case(self, inp, bpt, counts, order, painted, ctx, prefix_variant=0):
         """counts: per input scaffold texel count (0 = absent)"""
+        if painted and prefix_variant == 0:
+            # a second autosome prefix per map order, chosen so that Pretext's own names (Scaffold_<n>) begin with it
+            self.run_case(inp, bpt, counts, order, painted, ctx, prefix_variant=1)
         pieces = []
         for (name, rows), n in zip(inp, counts):
             if n:
@@ -102,7 +105,7 @@ class C08(Check):
             seq.reverse()
         arr = tuple(((i, 1),) for i in seq)
         pvspec = pv.make_pv(bpt, pieces, arr, (painted,) * len(arr))
-        case = [pv.jsonable(inp), pv.jsonable(pvspec)]
+        case = [pv.jsonable(inp), pv.jsonable(pvspec)] + ([prefix_variant] if prefix_variant else [])
         ctx.cur = case
         ctx.evaluations += 1
         lengths = [pv.scaffold_length(rows) for _, rows in inp]
@@ -113,6 +116,8 @@ class C08(Check):
         tag = "/bait-misses-last-contig" if sliver else ""
         # painted maps: default prefix through the constructor, or another prefix assigned after construction
         prefix, via_setter = ("Chr", True) if painted and order else ("SUPER_", False)
+        if prefix_variant:
+            prefix, via_setter = ("Scaffold_", False) if order else ("S", False)
         try:
             ba, out, _ = pv.remap(inp, pvspec, prefix=prefix, prefix_via_setter=via_setter)
         except Exception as e:  # noqa: BLE001
@@ -141,6 +146,9 @@ class C08(Check):
             gd = dict(got_rows)
             if len(gd) != len(got_rows) or gd != want:
                 errs.append(("content-differs", f"got {got_rows!r} expected {want!r}"))
+            elif not prefixed and [n for n, _ in got_rows] != [n for n, _ in inp]:
+                # (the inputs of this scope list their scaffolds in natural name order, which is also the output order)
+                errs.append(("scaffold-order-differs", f"got {[n for n, _ in got_rows]!r} expected {[n for n, _ in inp]!r}"))
             if any(r[0] == "F" and r[5] for _, rows in got for r in rows):
                 errs.append(("tags-added", f"{got!r}"))
         else:
@@ -229,7 +237,7 @@ class C08(Check):
         ctx.sample({"input": pv.jsonable((sa[chunk % len(sa)],)), "bpt": bpt, "map": "whole scaffold, bait [1, floor(n*bpt)], n in floor/ceil"})
 
     def replay(self, case, ctx):
-        inp, pvspec = case
+        inp, pvspec = case[:2]
         inp = pv.tuplify(inp)
         bpt = pvspec[0]
         names = [n for n, _ in inp]
@@ -252,3 +260,4 @@ class C08(Check):
 CHECK = C08()
 # scope added in later rounds, kept in the evidence text
 CHECK.rule += " Mixed-name family: inputs of 2-3 scaffolds that mix haplotype-prefixed names (hap1_scaffold_1, HAP2_SCAFFOLD_3) with plain ones, every order; prefixed scaffolds must come out unchanged exactly once (their assembly is C09's business), every other scaffold in the primary output, nothing else anywhere."
+CHECK.rule += ' Unpainted: output scaffold order == input order (inputs are listed in natural name order). Painted maps also with the autosome prefixes S and Scaffold_ (which Pretext scaffold names begin with).'
